@@ -1,5 +1,72 @@
 #!/usr/bin/env python3
-"""Show a replay file (the failing input / broken stage recorded by a check)."""
-import json, sys
-d = json.load(open(sys.argv[1]))
-print(json.dumps(d, indent=1)[:20000])
+"""Show a replay file (the failing input / broken stage recorded by a check) and, when it carries a byte string
+(a FLAC file or raw frames, hex under a key named `bytes`), run the implementation in /repo's CURRENT working tree on
+exactly those bytes (harness bin `c03 --stdin`: every reader front-end, panics caught) and print what it does now.
+
+usage: replay.py <replay.json> [--repo <dir>] [--no-run]"""
+import json
+import os
+import re
+import sys
+
+
+def find_bytes(o, path=""):
+    """(path, hex) of every string value under a key containing 'bytes' that looks like hex"""
+    out = []
+    if isinstance(o, dict):
+        for k, v in o.items():
+            p = path + "/" + str(k)
+            if isinstance(v, str) and "bytes" in str(k) and len(v) >= 8 and len(v) % 2 == 0 and re.fullmatch(r"[0-9a-fA-F]+", v):
+                out.append((p, v))
+            else:
+                out.extend(find_bytes(v, p))
+    elif isinstance(o, list):
+        for i, v in enumerate(o[:50]):
+            out.extend(find_bytes(v, "%s[%d]" % (path, i)))
+    return out
+
+
+def main():
+    args = [a for a in sys.argv[1:] if not a.startswith("--")]
+    if not args:
+        print(__doc__)
+        return 2
+    d = json.load(open(args[0]))
+    print(json.dumps(d, indent=1)[:20000])
+    if "--no-run" in sys.argv:
+        return 0
+    found = find_bytes(d.get("replay", d))
+    if not found:
+        print("\n(replay carries no byte string to re-run; the recorded input above is what the check's harness was given"
+              " — re-run the check itself: tools/check %s --tier %s, seed %s)" % (d.get("property", "?"), d.get("tier", "quick"), d.get("seed", "?")))
+        return 0
+    try:
+        sys.path.insert(0, os.path.dirname(os.path.abspath(__file__)))
+        import vlib
+        if "--repo" in sys.argv:
+            vlib.REPO = os.path.abspath(sys.argv[sys.argv.index("--repo") + 1])
+        ok, binp, out = vlib.cargo_build(os.path.join(vlib.VERIF, "harness"), "c03", "release")
+        if not ok:
+            print("\n(could not build the harness against %s: %s)" % (vlib.REPO, out[-400:]))
+            return 0
+        for path, hx in found[:4]:
+            frames_only = not hx.lower().startswith("664c6143")       # "fLaC"
+            kinds = ["dec_subset"] if frames_only else ["dec_stream"]
+            for kind in kinds:
+                req = json.dumps({"id": "replay", "bytes": hx, "kind": kind}) + "\n"
+                rc, o = vlib.sh([binp, "--stdin"], stdin=req, timeout=120)
+                print("\n== the implementation in %s, now, on %s (%d bytes, as %s):" % (vlib.REPO, path, len(hx) // 2, kind))
+                shown = 0
+                for line in o.splitlines():
+                    if line.startswith("{"):
+                        print("   " + line[:1500])
+                        shown += 1
+                if not shown:
+                    print("   (no observation; exit code %s) %s" % (rc, o[-300:]))
+    except Exception as e:                                       # the printed replay above is the primary content
+        print("\n(re-run skipped: %s)" % e)
+    return 0
+
+
+if __name__ == "__main__":
+    sys.exit(main())
